@@ -23,6 +23,8 @@ struct G<'a> {
     cur_bs: usize,
     /// index of the scenario within the run (stratified choices cycle with it, see `strat`)
     idx: usize,
+    /// block index of the special block the last `data_src` put into the stream (all zero / equal to its predecessor)
+    special_blk: Option<usize>,
 }
 
 fn type_max(t: &str) -> u128 {
@@ -139,6 +141,10 @@ impl<'a> G<'a> {
     }
     fn op(&mut self, op: &str, o: &str) {
         self.cmds.push(json!({"op":op,"o":o}));
+        if op == "export" && self.rng.chance(1, 6) {
+            // the state asked for twice in a row (reading it must not change it)
+            self.cmds.push(json!({"op":op,"o":o}));
+        }
     }
     /// drive a block-level object through n units by a random schedule
     fn sched_blocks(&mut self, o: &str, n: usize, w: usize, b2b: Option<bool>, export: bool) {
@@ -195,10 +201,33 @@ impl<'a> G<'a> {
     /// the data stream of a scenario: mostly random bytes, sometimes degenerate data (all zero, all 0xFF, one
     /// repeated byte) - a data-dependent shortcut in a mode would only show on those
     fn data_src(&mut self, id: u64) -> Value {
-        match self.rng.below(12) {
+        self.special_blk = None;
+        let bs = self.cur_bs.max(1);
+        match self.rng.below(14) {
             0 => json!({"zero": 1}),
             1 => json!({"fill": 255}),
             2 => json!({"fill": self.rng.below(256)}),
+            3 | 4 => {
+                // random data with ONE all-zero block (at block k of the stream, its neighbours are not zero)
+                // (three of them, at blocks k, k+2 and k+5: whatever the parallel width, one of them is likely to sit
+                // inside a parallel group and not at its start)
+                let k = self.rng.below(4);
+                self.special_blk = Some(if self.rng.coin() { k } else { k + 2 });
+                let r = json!({"rand": id});
+                let z = json!({"zero": 1});
+                let mut src = r.clone();
+                for q in [k + 5, k + 2, k] {
+                    src = json!({"splice": r.clone(), "at": q * bs, "then": {"splice": z.clone(), "at": (q + 1) * bs, "then": src}});
+                }
+                src
+            }
+            5 => {
+                // random data in which block k repeats block k-1
+                let k = self.rng.range(1, 7);
+                self.special_blk = Some(k);
+                json!({"splice": {"rand": id}, "at": k * bs, "then":
+                    {"splice": {"shift": {"rand": id}, "by": -(bs as i64)}, "at": (k + 1) * bs, "then": {"rand": id}}})
+            }
             _ => json!({"rand": id}),
         }
     }
@@ -325,7 +354,7 @@ pub fn warmup(facs: &[Box<dyn Factory>], bs: usize) -> Vec<Value> {
 }
 
 pub fn generate(prop: &str, tier: &str, facs: &[Box<dyn Factory>], rng: &mut Rng, i: usize) -> Value {
-    let mut g = G { facs, rng, thorough: tier == "thorough", cmds: vec![], cur_w: 1, cur_bs: 1, idx: i };
+    let mut g = G { facs, rng, thorough: tier == "thorough", cmds: vec![], cur_w: 1, cur_bs: 1, idx: i, special_blk: None };
     match prop {
         "C01" => gen_c01(&mut g),
         "C02" => gen_conf(&mut g, &["cbc", "pcbc", "ige"]),
@@ -545,7 +574,9 @@ fn gen_ctr(g: &mut G, belt: bool) {
             g.cmds.push(json!({"op":"setbpos","o":"a","v":b.to_string()}));
         }
         let w = g.w(f);
-        let n = g.nblocks(w, 8);
+        // (now and then a hundred or so blocks in many small calls: a look-ahead cache or a flag handed from one kind
+        // of call to the next would need that many calls, or that mix, to go wrong)
+        let n = if g.rng.chance(1, 12) { 90 + g.rng.below(60) } else { g.nblocks(w, 8) };
         g.sched_blocks("a", n, w, None, false);
         if g.rng.coin() {
             g.cmds.push(json!({"op":"ks","o":"a","n":g.rng.range(1, 2 * w + 1),"multi":g.rng.coin()}));
@@ -713,7 +744,11 @@ fn gen_byte_edges(g: &mut G) {
     let head = g.rng.below(bs.max(2));
     let mult = *g.rng.pick(&[1usize, 2, 3, 4, 7, 8, 9, 15, 16, 17, 32]);
     let d = g.rng.below(2 * bs.max(2) - 1) as i64 - (bs.max(2) as i64 - 1);
-    let big = ((mult * bs) as i64 + d).max(1) as usize;
+    let big = if bs <= 64 && g.rng.chance(1, 4) {
+        *g.rng.pick(&[255usize, 256, 257, 511, 512, 513]) // a length kept in a narrow integer would wrap here
+    } else {
+        ((mult * bs) as i64 + d).max(1) as usize
+    };
     let tail = g.rng.range(1, bs + 1);
     let total = head + big + tail;
     let b2b = kind != "cfbbuf" && g.rng.coin();
@@ -1505,8 +1540,16 @@ fn gen_c15(g: &mut G) {
         }
     }
     let total_bytes = units_total * pu;
-    g.new_obj("a", f, &kind, dir, 0, iv.clone(), json!({"rand":0}), "inner");
-    g.new_obj("b", f, &kind, dir, 0, iv.clone(), json!({"xor": {"rand":0}, "at": j * pu, "delta": delta}), "inner");
+    // (sometimes degenerate ciphertext: all blocks equal, all zero, equal to a degenerate IV - a shortcut taken for
+    // such blocks would change the set of affected bytes only there)
+    let base = g.data_src(0);
+    // (a special block in the stream: alter the unit right before it, or the block itself, most of the time)
+    let j = match g.special_blk {
+        Some(k) if pu == bs && k < units_total && g.rng.chance(3, 4) => if k >= 1 && g.rng.chance(2, 3) { k - 1 } else { k },
+        _ => j,
+    };
+    g.new_obj("a", f, &kind, dir, 0, iv.clone(), base.clone(), "inner");
+    g.new_obj("b", f, &kind, dir, 0, iv.clone(), json!({"xor": base.clone(), "at": j * pu, "delta": delta}), "inner");
     if bytelevel {
         g.sched_bytes("a", total_bytes, bs, Some(false), false);
         g.sched_bytes("b", total_bytes, bs, Some(false), false);
@@ -1584,6 +1627,30 @@ fn gen_c16(g: &mut G) {
             }
             return;
         }
+    }
+    if g.rng.chance(1, 4) {
+        // construct - use - DROP - construct again: the second instance (another key, same IV; most likely at the
+        // address the first one had) must behave like a third one that is built while everything else is still alive
+        let n1 = if g.rng.coin() {
+            if bytelevel { bs } else { mul } // exactly one block: "the last step of the dropped instance was its first"
+        } else if bytelevel {
+            g.nbytes(bs, 2).max(1)
+        } else {
+            (g.nblocks(w, 3) * mul).max(mul)
+        };
+        let n2 = if bytelevel { g.nbytes(bs, 3).max(1) } else { (g.nblocks(w, 4) * mul).max(mul) };
+        g.new_obj("t", f, &kind, dir, 1, iv.clone(), json!({"rand":0}), "inner"); // the twin, built first, used last
+        for round in 0..2 {
+            g.new_obj("a", f, &kind, dir, 0, iv.clone(), json!({"rand":3}), "inner");
+            if bytelevel { g.sched_bytes("a", n1, bs, Some(false), false) } else { g.sched_blocks("a", n1, w, Some(false), false) }
+            g.op("drop", "a");
+            let o = if round == 0 { "b" } else { "b2" };
+            g.new_obj(o, f, &kind, dir, 1, iv.clone(), json!({"rand":0}), "inner");
+            if bytelevel { g.sched_bytes(o, n2, bs, Some(false), false) } else { g.sched_blocks(o, n2, w, Some(false), true) }
+            g.op("drop", o);
+        }
+        if bytelevel { g.sched_bytes("t", n2, bs, Some(false), false) } else { g.sched_blocks("t", n2, w, Some(false), true) }
+        return;
     }
     // other live instances used in between: an unrelated mode under another key, and two NEIGHBOURS of the
     // same type - same IV under another key (y1), same key with another IV (y2) - each of which is replayed
